@@ -36,11 +36,14 @@ ZSTR = ["q", "p", "zz", "A", "b", "c", "d", "e", "f", "g", "h", "i"]
 
 def cases(tier, seed):
     j = 0
+    sel = 0
     # ---- line / scatter -----------------------------------------------------
     optsets = [{}, {"colors": True}, {"colors": ["red", "blue", "green"]},
                {"colors": True, "colormap": "viridis"},
                {"colors": True, "colormap_log": True},
                {"colors": True, "colormap_reverse": True},
+               {"colors": True, "colormap": "viridis",
+                "colormap_reverse": True},
                {"markers": True}, {"markers": False}, {"lines": False},
                {"legend": True}, {"legend": False},
                {"colors": True, "colorbar": True}, {"xlog": True},
@@ -68,7 +71,10 @@ def cases(tier, seed):
                         continue
                     inf = (j % 5 == 0)
                     for t in range(1 if tier == "quick" else 3):
-                        o = optsets[(j + t * 7) % len(optsets)]
+                        # (round-robin over the option sets by a counter of
+                        # its own: every set is used, whatever the thinning)
+                        sel += 1
+                        o = optsets[sel % len(optsets)]
                         if o.get("colormap_log") and (ztype == "str"
                                                       or nz < 2):
                             # (nothing to take the logarithm of: string
@@ -229,14 +235,38 @@ def call_plot(key, fn, *a, **kw):
                                                       kw.items()), e))
 
 
+def oracle_cmap(name, reverse):
+    """the colour map a name stands for, resolved without the library's own
+    lookup function (only its table of custom maps is read)"""
+    import matplotlib as mpl
+
+    if name is None:
+        try:
+            import colorcet  # noqa
+            name = "rainbow"
+        except ImportError:
+            name = "xyz"
+    full = name + ("_r" if reverse else "")
+    from xyzpy.plot.color import _XYZ_CMAPS
+
+    if full in _XYZ_CMAPS:
+        return _XYZ_CMAPS[full]
+    try:
+        import colorcet
+
+        if name not in ("inferno", "coolwarm", "blues") and full in colorcet.cm:
+            return colorcet.cm[full]
+    except ImportError:
+        pass
+    return mpl.colormaps[full]
+
+
 def expected_color(ds, case, opts, values, coo_values, string_z):
     """rgba per series for colors=True / c=..."""
     import numpy as np
     import matplotlib as mpl
-    from xyzpy.plot.color import xyz_colormaps
-
-    cmap = xyz_colormaps(opts.get("colormap"),
-                         reverse=opts.get("colormap_reverse", False))
+    cmap = oracle_cmap(opts.get("colormap"),
+                       opts.get("colormap_reverse", False))
     if string_z:
         return [cmap(v) for v in np.linspace(0, 1, len(values))]
     zl = opts.get("zlims", (None, None))
